@@ -64,3 +64,16 @@ Proof.
   - intros [l [E H]]. inversion E. now subst.
   - intros H. exists (SubsCancel.all_dup k). split; [reflexivity | exact H].
 Qed.
+
+(* the two generated functions together, as duplicate_checker.main uses them: all_dup = get_all_dup(max_param), then
+   simplify_inv_subs(chain, all_dup) for every chain -- the composed parameter map is preserved (rationals: decidable arithmetic) *)
+From Coq Require Import QArith Qcanon.
+From ESRV Require Import Proofs.CancelGenProofs.
+Theorem code_all_dup_then_cancel_Qc : forall (interp : nat -> list Qc -> option (list Qc)) (k : nat) (chain : list sub) (e e' : list Qc) dup,
+  get_all_dup_code k = Some dup -> (k <= length e)%nat ->
+  compose Qc (Q2Qc 0) Qcopp Qcinv Qc_is_zero interp chain e = Some e' ->
+  exists c, gen_chain chain dup = Some c /\ compose Qc (Q2Qc 0) Qcopp Qcinv Qc_is_zero interp c e = Some e'.
+Proof.
+  intros interp k chain e e' dup Hd Hk Hc. rewrite all_dup_code_is_model in Hd. injection Hd as <-.
+  now apply gen_preserves_composition_Qc.
+Qed.
